@@ -25,6 +25,7 @@ EXPLANATION = (
 
 SELF, OTHER = P_('self'), P_('other')
 OPM = 'dimarray.core.bases.OpMixin.'
+AL = 'dimarray.core.align.'
 UFUNC = {'add': 'np.add', 'sub': 'np.subtract', 'mul': 'np.multiply', 'truediv': 'np.true_divide',
          'floordiv': 'np.floor_divide', 'pow': 'np.power'}
 
@@ -273,14 +274,55 @@ def rule_env(ctx):
     npapi.check_reachable(ctx, 'R6', entries, depth=4)
 
 
+def rule_align_dims(ctx):
+    """R10: the transposition / singleton-insertion step ahead of the element-wise function"""
+    ctx.rule('R10', 'align_dims: inputs are returned untouched only when their ordered dims are identical; otherwise each is reshaped onto the common dims', 2)
+    fi = ctx.fn(AL + 'align_dims')
+    ARR = P_('*arrays')
+    ev = run(ctx, fi)
+    shortcut = [p for p in ret_paths(ev) if p.value == ARR]
+    others = [p for p in ret_paths(ev) if p.value != ARR]
+    for p in shortcut:
+        ok = None
+        for a, pol in p.guards:
+            # len({o.dims for o in arrays}) == 1
+            if a[0] == 'cmp' and a[1] == '==' and a[3] == const(1) and a[2][0] == 'call' and T.call_name(a[2]) == 'len' and pol is True:
+                inner = a[2][2][0]
+                if inner[0] == 'comp' and inner[1] == 'set':
+                    elt = inner[2]
+                    ok = bool(elt[0] == 'attr' and elt[2] == 'dims' and elt[1][0] == 'elem' and elt[1][1] == ARR)
+                    if not ok and any(x[0] == 'call' and T.call_name(x) in ('set', 'frozenset', 'sorted') for x in T.subterms(elt)):
+                        ok = False
+        if ok is True:
+            ctx.holds('R10', 'short-cut only when all ordered dims tuples coincide')
+        elif ok is False:
+            ctx.violated('R10', fi, 'align_dims short-cut', 'the "dimensions already equal" short-cut compares the dimensions as unordered sets: operands with the same '
+                         'dimensions in a different order are no longer transposed and are combined by position', node=fi.node)
+        else:
+            ctx.undecide('R10', 'align_dims returns its inputs unchanged under a guard that is not recognised: %s' % '; '.join('%s=%s' % (T.show(a)[:80], pol) for a, pol in p.guards))
+    good = 0
+    for p in others:
+        calls = [c for c in T.subterms(p.value) if c[0] == 'call' and T.call_name(c) == 'reshape']
+        if len(calls) == 1 and calls[0][1][0] == 'attr' and calls[0][1][1] == ('elem', ARR, calls[0][1][1][2] if calls[0][1][1][0] == 'elem' else None) \
+                and calls[0][2] and calls[0][2][0][0] == 'call' and T.call_name(calls[0][2][0]) == 'get_dims' and T.contains(calls[0][2][0], ARR):
+            good += 1
+            ctx.holds('R10', 'every array reshaped onto get_dims(*arrays)')
+        else:
+            ctx.violated('R10', fi, 'align_dims reshape step', 'outside the short-cut every input must be returned as o.reshape(get_dims(*arrays)); got %s' % T.show(p.value)[:120], node=fi.node)
+    if not others:
+        ctx.violated('R10', fi, 'align_dims reshape step', 'align_dims never reshapes its inputs', node=fi.node)
+
+
 def check(ctx):
     rule_operator_table(ctx)
     rule_pipeline(ctx)
     rule_defaults(ctx)
+    rule_align_dims(ctx)
     rule_env(ctx)
     # the alignment step that operation() delegates to: reindex loop of align()
     from . import c06
-    c06.rule_align(ctx)
+    c06.rule_align(ctx, rid='R7')
+    c06.rule_merge_cast(ctx, r8='R8', r9='R9')
     ctx.not_decided += ['per-coordinate numerical result', 'NaN placement for labels missing in one operand (C06/C07 clauses)']
     ctx.trusted += ['NumPy ufunc semantics', 'NumPy stub files list the public names of the pinned NumPy']
     return EXPLANATION
